@@ -272,10 +272,15 @@ def _ppo_update(ck, repo, nf):
     site = grad_sites(repo, fn, mi)[0]
     at = cfg.node_of(site["app"]).id
     lp = positional_params(repo.func("rl_blox.algorithm.ppo.ppo_loss"))
+    if any(isinstance(a, ast.Starred) for a in site["app"].args) or any(k.arg is None for k in site["app"].keywords):
+        raise AnalysisError(f"{q}: the loss is applied to packed arguments `{short(site['app'], 70)}` (cannot bind them to the parameters of ppo_loss)")
     b = {lp[i]: a for i, a in enumerate(site["app"].args) if i < len(lp)}
+    b.update({k.arg: k.value for k in site["app"].keywords if k.arg in lp})
     sc = Scope(cfg, mi, env, q)
     where = loc(mi, site["app"])
     old = b.get("old_logps")
+    if old is None:
+        raise AnalysisError(f"{q}: no argument is bound to `old_logps` in `{short(site['app'], 70)}` (unrecognised form)")
     okn = isinstance(old, ast.Name)
     ck.ob("R2-ppo", q, "old-logp-is-variable", okn, f"old_logps <- {short(old) if old is not None else None}", "" if okn else "old log-probabilities must be a value computed before the epoch loop", where)
     if okn:
